@@ -230,54 +230,64 @@ def work(item):
             for bits in range(1, 4**N):
                 one('aniso', [(bits >> i) & 1 for i in range(2 * N)], 0.99)
     elif mode == 'C':
-        # two steps: every subset first, then all singletons, the full set and 'every other leaf'
+        # two marking steps on the SAME mesh object: every subset first (isotropic, or anisotropic with other magnitudes), then all
+        # singletons, the full set and 'every other leaf' (isotropic and anisotropic) - state left behind by the first call
+        # (scratch buffers, flags on elements) must not influence the second
         if N <= P['C_max']:
-            for bits in range(1, 2**N):
-                eta1 = [(bits >> i) & 1 for i in range(N)]
-                m = build(cfg, h)
-                try:
-                    with horizon(20000):
-                        m.dorfler_refine_isotropic(np.array(eta1, dtype=float), 0.99)
-                except (Exception, Horizon) as ex:
-                    continue  # reported by mode B
-                mid_leaves = [leaf6(e) for e in m.leaf_elements]
-                N1 = len(mid_leaves)
-                ref1 = ref_from_leaves(ref, mid_leaves)
-                seconds = [[1 if j == i else 0 for j in range(N1)] for i in range(N1)]
-                seconds += [[1] * N1, [j % 2 for j in range(N1)]]
-                for eta2 in seconds:
-                    for kind in ('iso', 'aniso'):
-                        n += 1
-                        log = []
-                        m2 = build(cfg, h)
+            def first(m, kind1, eta1):
+                if kind1 == 'iso':
+                    m.dorfler_refine_isotropic(np.array(eta1, dtype=float), 0.99)
+                else:
+                    m.dorfler_refine_anisotropic(np.array([3.0 * v for v in eta1 for _ in (0, 1)]).reshape(len(eta1), 2), 0.99)
+            for kind1 in ('iso', 'aniso'):
+                for bits in range(1, 2**N):
+                    if N > P['C_full'] and bin(bits).count('1') > 1:
+                        continue  # beyond C_full leaves: first-step marked sets of one element only (deviation bound 1)
+                    eta1 = [(bits >> i) & 1 for i in range(N)]
+                    m = build(cfg, h)
+                    try:
                         with horizon(20000):
-                            m2.dorfler_refine_isotropic(np.array(eta1, dtype=float), 0.99)
-                        before = [leaf6(e) for e in m2.leaf_elements]
-                        assert before == mid_leaves
-                        del _PRINTS[:]
-                        e2 = eta2 if kind == 'iso' else [x for v in eta2 for x in (v, 1 - v if v else 0)]
-                        try:
-                            with horizon(20000, log=log):
-                                if kind == 'iso':
-                                    m2.dorfler_refine_isotropic(np.array(e2, dtype=float), 0.99)
-                                else:
-                                    m2.dorfler_refine_anisotropic(np.array(e2, dtype=float).reshape(N1, 2), 0.99)
-                            top = [(r, ax) for d, r, ax in log if d == 0]
-                            err = oracle(ref1, kind, e2, 0.99, m2, before, top, list(_PRINTS))
-                            outcomes.add(common.digest(sorted(leafset(m2))))
-                        except (Exception, Horizon) as ex:
-                            err = ('raised', repr(ex))
-                        if err is not None and len(viols) < 3:
-                            viols.append((err[0] + '-step2', {'cfg': cfgname, 'history': h, 'kind': kind, 'eta1': eta1,
-                                                              'eta': list(map(int, e2)), 'theta': 0.99, 'detail': err[1]}))
+                            first(m, kind1, eta1)
+                    except (Exception, Horizon) as ex:
+                        continue  # reported by mode B
+                    mid_leaves = [leaf6(e) for e in m.leaf_elements]
+                    N1 = len(mid_leaves)
+                    ref1 = ref_from_leaves(ref, mid_leaves)
+                    seconds = [[1 if j == i else 0 for j in range(N1)] for i in range(N1)]
+                    seconds += [[1] * N1, [j % 2 for j in range(N1)]]
+                    for eta2 in seconds:
+                        for kind, theta2 in (('iso', 0.99), ('aniso', 0.99), ('iso', 0.5)):
+                            n += 1
+                            log = []
+                            m2 = build(cfg, h)
+                            with horizon(20000):
+                                first(m2, kind1, eta1)
+                            before = [leaf6(e) for e in m2.leaf_elements]
+                            assert before == mid_leaves
+                            del _PRINTS[:]
+                            e2 = eta2 if kind == 'iso' else [x for v in eta2 for x in (v, 1 - v if v else 0)]
+                            try:
+                                with horizon(20000, log=log):
+                                    if kind == 'iso':
+                                        m2.dorfler_refine_isotropic(np.array(e2, dtype=float), theta2)
+                                    else:
+                                        m2.dorfler_refine_anisotropic(np.array(e2, dtype=float).reshape(N1, 2), theta2)
+                                top = [(r, ax) for d, r, ax in log if d == 0]
+                                err = oracle(ref1, kind, e2, theta2, m2, before, top, list(_PRINTS))
+                                outcomes.add(common.digest(sorted(leafset(m2))))
+                            except (Exception, Horizon) as ex:
+                                err = ('raised', repr(ex))
+                            if err is not None and len(viols) < 3:
+                                viols.append((err[0] + '-step2', {'cfg': cfgname, 'history': h, 'kind': kind, 'eta1': eta1, 'kind1': kind1,
+                                                                  'eta': list(map(int, e2)), 'theta': theta2, 'detail': err[1]}))
     return viols, n, len(outcomes), sorted(classes)
 
 
 PARAMS = {
-    'quick': dict(A_iso_max=6, A_iso_full=6, A_aniso_max=5, A_aniso_full=3, B_iso_max=9, B_aniso_max=5, C_max=0,
+    'quick': dict(A_iso_max=6, A_iso_full=6, A_aniso_max=5, A_aniso_full=3, B_iso_max=9, B_aniso_max=5, C_max=6, C_full=3,
                   graphs={'open1x1': 3, 'glued1x1': 3, 'glued2x1': 2, 'glued3x1': 2, 'UnitInterval': 3, 'UnitSquare': 1,
                           'Circle': 1, 'LShape': 1, 'PiSquare': 1, 'open_irreg3x3': 0, 'glued2x2': 1}),
-    'thorough': dict(A_iso_max=8, A_iso_full=7, A_aniso_max=7, A_aniso_full=4, B_iso_max=12, B_aniso_max=6, C_max=5,
+    'thorough': dict(A_iso_max=8, A_iso_full=7, A_aniso_max=7, A_aniso_full=4, B_iso_max=12, B_aniso_max=6, C_max=8, C_full=5,
                      graphs={'open1x1': 4, 'glued1x1': 4, 'glued2x1': 3, 'glued3x1': 3, 'UnitInterval': 4,
                              'UnitSquare': 2, 'Circle': 2, 'LShape': 2, 'LShapeDriver': 1, 'PiSquare': 2,
                              'open_irreg3x3': 1, 'glued_irreg3x3': 1, 'glued2x2': 2, 'Circle2': 1}),
@@ -338,7 +348,10 @@ def replay(ctx, data):
     if 'eta1' in data:
         print('two-step replay: first step eta1 =', data['eta1'])
         m = build(cfg, h)
-        m.dorfler_refine_isotropic(np.array(data['eta1'], dtype=float), 0.99)
+        if data.get('kind1', 'iso') == 'iso':
+            m.dorfler_refine_isotropic(np.array(data['eta1'], dtype=float), 0.99)
+        else:
+            m.dorfler_refine_anisotropic(np.array([3.0 * v for v in data['eta1'] for _ in (0, 1)]).reshape(len(data['eta1']), 2), 0.99)
         from mc.refmesh import ref_from_leaves
         ref = ref_from_leaves(ref, [leaf6(e) for e in m.leaf_elements])
         log = []
